@@ -167,6 +167,54 @@ def escapeRaw (ts : List Tok) : List Tok := ts.flatMap escTok
 /-- `unquote(s, only_printable=True, normalize_space=True, unsafe=U, lossless=True)` -/
 def safelyUnquote (U : List UInt8) (s : Str) : Str := render (unquoteToks U (escapeRaw (tokens s)))
 
+/-! ## safely_unquote_* in the order of the Python code
+
+`safelyUnquote` above escapes the raw non-printable characters BEFORE decoding (`escapeRaw`) and
+normalises spaces token by token (`itemOf`).  `unquote` does it afterwards, on the decoded
+string: `NON_PRINTABLE_RE.sub(_requote_match, q)`, then `q.replace(" ", "%20")`.
+`safelyUnquotePost` is that order, step by step; `Lemmas/QuotePost.lean` proves the two equal for
+every unsafe set of ASCII bytes (`safelyUnquotePost_eq`), and both are compared with the real
+functions on every run. -/
+
+/-- `_unquote_impl` on one token, nothing else (no space normalisation) -/
+def itemOfPlain (U : List UInt8) : Tok → Item
+  | .raw c => .lit (.raw c)
+  | .stray => .lit (.esc '2' '5')
+  | .esc h1 h2 =>
+    let b := byteOf h1 h2
+    if keepEsc U b then .lit (.esc h1 h2)
+    else if b < 0x80 then .lit (.raw (Char.ofNat b.toNat))
+    else .byte b
+
+/-- `.decode("utf-8", "ural.requote")` on a run of decoded bytes: well-formed sequences as
+characters (whatever they are), ill-formed bytes re-escaped -/
+def flushPlain (bs : List UInt8) : List Tok :=
+  (segment bs).flatMap fun
+    | .inl c => [.raw c]
+    | .inr b => [escOfByte b]
+
+def assemblePlain : List Item → List UInt8 → List Tok
+  | [], acc => flushPlain acc
+  | .lit t :: r, acc => flushPlain acc ++ t :: assemblePlain r []
+  | .byte b :: r, acc => assemblePlain r (acc ++ [b])
+
+/-- `"".join(_generate_unquoted_parts(string, …))`: the decoded string -/
+def decodeOnly (U : List UInt8) (s : Str) : Str :=
+  render (assemblePlain ((tokens s).map (itemOfPlain U)) [])
+
+/-- `NON_PRINTABLE_RE.sub(_requote_match, q)`: every character the regex matches becomes the
+upper-case escapes of its UTF-8 bytes -/
+def requoteNonPrintable (q : Str) : Str :=
+  q.flatMap fun c => if staysEscaped c then render ((utf8 c).map escOfByte) else [c]
+
+/-- `q.replace(" ", "%20")` -/
+def normalizeSpace (q : Str) : Str := q.flatMap fun c => if c = ' ' then ['%', '2', '0'] else [c]
+
+/-- `unquote(s, only_printable=True, normalize_space=True, unsafe=U, lossless=True)`, in the
+order of the code: decode, re-escape the non-printable characters, normalise spaces -/
+def safelyUnquotePost (U : List UInt8) (s : Str) : Str :=
+  normalizeSpace (requoteNonPrintable (decodeOnly U s))
+
 /-! ## safely_quote -/
 
 /-- characters `urllib.parse.quote` leaves alone with its default `safe="/"` -/
